@@ -120,6 +120,25 @@ func parList(t *rapid.T) ([]*roaring.Bitmap, []*model.Set, string) {
 				desc += " dup"
 				continue
 			}
+		case 2:
+			// completely full chunks (one run 0..65535 each) on the first keys of the window
+			fm := model.New()
+			var fsp gen.BitmapSpec
+			for k := 0; k < span && k < 3; k++ {
+				if k == 0 || rapid.Bool().Draw(t, label+".fullAlso") {
+					fm.AddRange(uint64(k0+k)<<16, uint64(k0+k)<<16+65535)
+					fsp.Chunks = append(fsp.Chunks, spec.Chunk{Key: uint16(k0 + k), Kind: spec.Run, Ivs: []model.Iv{{Lo: 0, Hi: 65535}}})
+					fsp.Shapes = append(fsp.Shapes, "full")
+				}
+			}
+			how := rapid.IntRange(0, 2).Draw(t, label+".storage")
+			if how == 2 {
+				anyCOW = true
+			}
+			// at the front, where the accumulator of an intersection starts out full
+			bs, ms = append([]*roaring.Bitmap{readBitmap(fsp, how)}, bs...), append([]*model.Set{fm}, ms...)
+			desc += fmt.Sprintf(" [%d full chunks, placed first]", len(fsp.Chunks))
+			continue
 		}
 		density := rapid.SampledFrom([]int{1, 1, 2, 4}).Draw(t, label+".density")
 		var keys []uint16
@@ -260,7 +279,9 @@ func propC12Aggregates(t *rapid.T) {
 		})
 		checkSlice()
 		for i, b := range bs {
-			if g := setOf(b); g == nil || !g.Equal(ms[i]) {
+			if g := setOf(b); g == nil {
+				t.Fatalf("%s: input #%d was modified by the call: it can no longer be serialized / decoded", what, i)
+			} else if !g.Equal(ms[i]) {
 				t.Fatalf("%s: input #%d was modified by the call: %s", what, i, model.Diff(ms[i], g))
 			}
 		}
@@ -353,7 +374,9 @@ func propC12Aggregates(t *rapid.T) {
 	}
 	if fn != "ParOr64" {
 		for i, b := range bs {
-			if g := setOf(b); g == nil || !g.Equal(ms[i]) {
+			if g := setOf(b); g == nil {
+				t.Fatalf("%s: input #%d was modified by the call: it can no longer be serialized / decoded", what, i)
+			} else if !g.Equal(ms[i]) {
 				t.Fatalf("%s: input #%d was modified by the call: %s", what, i, model.Diff(ms[i], g))
 			}
 		}
